@@ -333,8 +333,8 @@ theorem ttlOk_iff (ttl : Int) : ttlOk ttl = true ↔ second ≤ ttl := by
   rw [decide_eq_true_iff]
   by_cases h : ttl < 0
   · have h1 : ttl.tdiv 1000000000 ≤ 0 := by
-      have := Int.tdiv_nonpos_of_nonpos_of_neg (Int.le_of_lt h) (by decide : (-1000000000 : Int) < 0)
-      rw [Int.tdiv_neg] at this
+      have h2 : ttl.tdiv 1000000000 = -((-ttl).tdiv 1000000000) := by rw [Int.neg_tdiv]; omega
+      rw [h2, Int.tdiv_eq_ediv_of_nonneg (by omega)]
       omega
     omega
   · rw [Int.tdiv_eq_ediv_of_nonneg (by omega)]
